@@ -206,3 +206,57 @@ package tcp
 //@   props C03 C14 C16 C06 C08 C20
 //@   observe Chan
 //@   entry row chan: [call Chan(s.results) as (c)] when ret == c -> exit
+
+// option constructors: each returns its own option closure over exactly its argument (verified here, inlined at call sites)
+//@ func WithACK
+//@   inline
+//@   props C05
+//@   ensures closureof(ret, "WithACK$1")
+//@ func WithCWR
+//@   inline
+//@   props C05
+//@   ensures closureof(ret, "WithCWR$1")
+//@ func WithECE
+//@   inline
+//@   props C05
+//@   ensures closureof(ret, "WithECE$1")
+//@ func WithFIN
+//@   inline
+//@   props C05
+//@   ensures closureof(ret, "WithFIN$1")
+//@ func WithFillerVPNmode
+//@   inline
+//@   props C05
+//@   ensures closureof(ret, "WithFillerVPNmode$1") && capt(ret, "vpnMode") == vpnMode
+//@ func WithNS
+//@   inline
+//@   props C05
+//@   ensures closureof(ret, "WithNS$1")
+//@ func WithPSH
+//@   inline
+//@   props C05
+//@   ensures closureof(ret, "WithPSH$1")
+//@ func WithPacketFilterFunc
+//@   inline
+//@   props C03 C06 C14 C16
+//@   ensures closureof(ret, "WithPacketFilterFunc$1") && capt(ret, "pktFilter") == pktFilter
+//@ func WithPacketFlagsFunc
+//@   inline
+//@   props C03 C06 C14 C16
+//@   ensures closureof(ret, "WithPacketFlagsFunc$1") && capt(ret, "pktFlags") == pktFlags
+//@ func WithRST
+//@   inline
+//@   props C05
+//@   ensures closureof(ret, "WithRST$1")
+//@ func WithSYN
+//@   inline
+//@   props C05
+//@   ensures closureof(ret, "WithSYN$1")
+//@ func WithScanVPNmode
+//@   inline
+//@   props C03 C17 C06 C14 C16
+//@   ensures closureof(ret, "WithScanVPNmode$1") && capt(ret, "vpnMode") == vpnMode
+//@ func WithURG
+//@   inline
+//@   props C05
+//@   ensures closureof(ret, "WithURG$1")
